@@ -88,9 +88,14 @@ func genM3(g *Gen, p *Program, o m3GenOpts) {
 			sz += len(k) + len(v) + 10
 		}
 		if kind == "m3ah" {
-			if g.Bool(50) {
+			// (value bounds 1, 2, 5 and duration bounds 1s, 2s, 5s are the same numbers:
+			// whatever is kept per bucket set must not be kept per list of numbers)
+			switch g.Intn(3) {
+			case 0:
 				op.B = &BucketSpec{Bits: []uint64{f64bits(1), f64bits(2), f64bits(5)}}
-			} else {
+			case 1:
+				op.B = &BucketSpec{Dur: true, Durs: []int64{1e9, 2e9, 5e9}}
+			default:
 				op.B = &BucketSpec{Dur: true, Durs: []int64{1e6, 1e9}}
 			}
 			sz += 80
@@ -111,7 +116,11 @@ func genM3(g *Gen, p *Program, o m3GenOpts) {
 		for k := g.Range(1, 3); k > 0; k-- {
 			op := Op{K: "m3bucket", S: h.m, M: nextM}
 			if h.spec.Dur {
-				op.I = pick(g, int64(1e6), int64(1e9), int64(9223372036854775807))
+				// an upper bound of the histogram's own specification (or the catch-all)
+				op.I = int64(9223372036854775807)
+				if i := g.Intn(len(h.spec.Durs) + 1); i < len(h.spec.Durs) {
+					op.I = h.spec.Durs[i]
+				}
 			} else {
 				op.F = f64bits(pick(g, 1.0, 2.0, 5.0, 1.7976931348623157e308))
 			}
